@@ -157,7 +157,7 @@ fn int_at(s: &[u8], mut i: usize) -> Option<(i128, usize)> {
     let mut v: i128 = 0;
     while i < s.len() && s[i].is_ascii_digit() {
         v = v.checked_mul(10)?.checked_add((s[i] - b'0') as i128)?;
-        if v > i64::MAX as i128 {
+        if v > i64::MAX as i128 + neg as i128 {
             return None;
         }
         i += 1;
